@@ -82,7 +82,7 @@ func runPrinter(root []*pev, gp *gPath) *printRun {
 				return
 			}
 			switch e.kind {
-			case evComments, evMap, evLayout:
+			case evComments, evMap, evLayout, evTerm:
 			case evLit:
 				pr.items = append(pr.items, pItem{kind: "lit", text: e.text, pos: e.pos})
 			case evSemi:
